@@ -189,6 +189,13 @@ def generate(seed: int, config: str, tier: str) -> Dict[str, Any]:
                                              {"op": "add", "path": "/a"}, {"op": "move", "path": "/a"}, {"op": "add", "path": "a", "value": 1}])]
             else:
                 patch = patch + [{"op": "test", "path": "/__nope__/x", "value": 1}]
+    if rng.random() < 0.12 and isinstance(doc, (dict, list)):
+        # text that a JSON document may legally carry but an output stream may not encode
+        odd = rng.choice(["\ud83d", "é\ud83dx", "naïve ☃", "\udc00", "\U0001f600"])
+        if isinstance(doc, dict):
+            doc[rng.choice(["a", "s", "b"])] = odd
+        else:
+            doc.insert(rng.randrange(len(doc) + 1), odd)
     if invalid_expr and cmd != "patch":
         expr = _mutate_expr(rng, cmd, expr)
     elif cmd != "patch" and rng.random() < 0.05:
@@ -226,7 +233,7 @@ def _dump(v: Any, style: str) -> bytes:
     if style == "indent":
         return json.dumps(v, indent=1).encode()
     if style == "noascii":
-        return json.dumps(v, ensure_ascii=False).encode("utf-8")
+        return json.dumps(v, ensure_ascii=False).encode("utf-8", "surrogatepass")
     return json.dumps(v, separators=(",", ":")).encode()
 
 
